@@ -34,6 +34,22 @@ def write_replay(prop, verif_seed, tier, i, body):
     return path
 
 
+def cli_replay_reproduces(path, timeout=600):
+    """Replay a file the way a user would: a fresh interpreter started
+    through simcheck.py (same VERIF_REPO).  True iff it ends in VIOLATION."""
+    import subprocess
+    env = dict(os.environ)
+    env.pop('SIMCHECK_PINNED', None)
+    try:
+        p = subprocess.run([sys.executable,
+                            os.path.join(core.VERIF, 'simcheck.py'),
+                            'replay', path], capture_output=True, text=True,
+                           env=env, timeout=timeout)
+    except Exception:
+        return False
+    return p.returncode == 1 and 'VIOLATION property=' in p.stdout
+
+
 class Aggregate(object):
     def __init__(self):
         self.evaluations = 0
@@ -100,7 +116,12 @@ def drive(prop, tier, verif_seed, n_runs, workers, job, rule, level_text,
     wall = time.time() - t0
     exit_code = 0
     seen = set()
-    for i, v in sorted(agg.violations, key=lambda x: x[0]):
+    def vkey(x):
+        # files confirmed in a fresh interpreter first, then by run index
+        c = x[1].get('fresh_interpreter_replay')
+        return (0 if c is True or c is None and 'fresh_interpreter_replay'
+                not in x[1] else 1 if c is None else 2, str(x[0]).zfill(9))
+    for i, v in sorted(agg.violations, key=vkey):
         print('VIOLATION property={} replay={}'.format(prop, v['replay']))
         print('  run={} class={} {}'.format(i, v.get('class'),
                                             v.get('detail', '')[:400]))
